@@ -66,3 +66,83 @@ func rangeValSwap(s []int) int {
 	}
 	return n
 }
+
+// a local map[K]struct{} used as a set: insert, comma-ok lookup, len
+func setCount(s []int) int {
+	m := make(map[int]struct{}, len(s))
+	for i := range s {
+		m[s[i]] = struct{}{}
+	}
+	n := 0
+	for _, v := range s {
+		if _, ok := m[v+1]; ok {
+			n++
+		}
+	}
+	return n*100 + len(m)
+}
+
+// generic key, no size hint, `!ok`
+func setMissing[T comparable](s, t []T) int {
+	m := make(map[T]struct{})
+	for _, v := range t {
+		m[v] = struct{}{}
+	}
+	n := 0
+	for _, v := range s {
+		if _, ok := m[v]; !ok {
+			n++
+		}
+	}
+	return n
+}
+
+// iteration order is observable: rejected
+func setRange(s []int) int {
+	m := make(map[int]struct{}, len(s))
+	for _, v := range s {
+		m[v] = struct{}{}
+	}
+	r := 0
+	for k := range m {
+		r = k
+	}
+	return r
+}
+
+// delete: rejected
+func setDelete(s []int) int {
+	m := make(map[int]struct{}, len(s))
+	m[1] = struct{}{}
+	delete(m, 1)
+	return len(m)
+}
+
+// a second name for the same map (reference semantics): rejected
+func setAlias(s []int) int {
+	m := make(map[int]struct{}, len(s))
+	m2 := m
+	m2[1] = struct{}{}
+	return len(m)
+}
+
+// a map with values: rejected
+func setValue(s []int) int {
+	m := make(map[int]int, len(s))
+	m[1] = 2
+	return len(m)
+}
+
+// reading the value: rejected
+func setRead(s []int) int {
+	m := make(map[int]struct{}, len(s))
+	v := m[1]
+	_ = v
+	return len(m)
+}
+
+// a size hint whose evaluation could panic: rejected
+func setHint(s []int, d int) int {
+	m := make(map[int]struct{}, len(s)/d)
+	return len(m)
+}
